@@ -59,7 +59,8 @@ def install_hooks():
 
 WSI_1_IN = 3            # a blank/comment line gets its own (not the scope's) indentation in 1 of 3 cases
 WS_AFTER_OPENER_1_IN = 4  # a scope opener is followed by blank/comment lines before its body in 1 of 4 cases
-CUT_SHORT_1_IN = 10     # 1 of 10 programs with a macro gets the shape "call cut short by End block, macro called again"
+BLOCK_IN_REPEATED_1_IN = 6   # 1 of 6 programs gets a Block inside an Alarm body / inside a macro that is then called 2-3 times
+CUT_SHORT_1_IN = 7      # 1 of 7 programs with a macro gets the shape "call cut short by End block, macro called again"
 
 
 def render(tree: dict):
@@ -125,6 +126,32 @@ def program(draw, cfg: G.GenCfg, open_block_1_in: int = 4, force_trailing_1_in: 
             if draw(st.booleans()):
                 blk["c"].insert(1, {"k": "mark", "t": None})
             tree["body"].extend([blk, {"k": "callmacro", "t": None, "name": m["name"]}, {"k": "mark", "t": None}])
+    # "a Block (with its End block) inside a body that runs repeatedly" -- Alarm body raised several times, macro called
+    # 2-3 times -- ordinary methods that are rare by chance (the Alarm has to re-arm, the macro to be called again)
+    if draw(st.integers(1, BLOCK_IN_REPEATED_1_IN)) == 1:
+        def blk():
+            b = {"k": "block", "t": None, "end": draw(st.sampled_from(["endblock", "endblock", "endblocks"])), "end_t": None,
+                 "c": [{"k": draw(st.sampled_from(["mark", "mark", "quick", "wait"])), "t": None}]}
+            if b["c"][0]["k"] == "wait":
+                b["c"][0]["d"] = draw(st.sampled_from([0.1, 0.2, 0.3]))
+            return b
+        if not open_block_interrupt or draw(st.booleans()):
+            if macros and draw(st.booleans()):
+                m = draw(st.sampled_from(macros))
+                m["c"].insert(draw(st.integers(0, len(m["c"]))), blk())
+            else:
+                m = {"k": "macro", "t": None, "name": "M%d" % (len(macros) + 1),
+                     "c": [{"k": "mark", "t": None}, blk(), {"k": "mark", "t": None}]}
+                tree["body"].insert(0, m)
+                macros.append(m)
+            for _ in range(draw(st.integers(2, 3))):
+                tree["body"].extend([{"k": "callmacro", "t": None, "name": m["name"]}, {"k": "mark", "t": None}])
+        elif open_block_interrupt:
+            body = [{"k": "mark", "t": None}, blk(), {"k": "mark", "t": None}]
+            if draw(st.booleans()):
+                body.pop(0)
+            tree["body"].insert(draw(st.integers(0, len(tree["body"]))),
+                                {"k": "alarm", "t": None, "cond": draw(G.condition(cfg)), "cut_short": True, "c": body})
     _fix_bodies(tree["body"])
     if draw(st.integers(1, force_trailing_1_in)) == 1:
         # blank/comment lines at the very end of the method (possibly inside the last open scope)
@@ -604,7 +631,11 @@ def analyse(tr: Trace):
     last_block_end_tick = [None]
     cut_macros: set = set()            # macros with a call that was cut short by a block end (class only)
 
+    inv_start: dict = {}               # (container line, invocation number) -> (event index, tick) of the invocation's start
+    block_end_eis: list = []           # event indices of all block end events
+
     def inv_begin(cont, ei, tick, by=None):
+        inv_start[(cont, cx.counter.get(cont, 0))] = (ei, tick)
         if cx.weak(cont) or (by is not None and cx.weak(by)):
             inv_open.pop(cont, None)
             return
@@ -771,6 +802,11 @@ def analyse(tr: Trace):
                     oc = cx.open_calls.setdefault(m, set())
                     if oc:
                         cx.concurrent.add(m)
+                        if stop["v5"] is None and any(prog.kind(d) == "block" and m in prog.anc[d] for d in prog.byid):
+                            # overlapping calls of a macro that contains blocks: the calls share (and reset) the block nodes;
+                            # neither statement says how -- C05 judges the case up to here only, as C02 does for the body lines
+                            stop["v5"] = ei
+                            info["classes"].add("c05-judged-until:macro-concurrent-call")
                     oc.add(node)
                 if kind in WS and node in prog.inner_ws:
                     pass
@@ -928,6 +964,7 @@ def analyse(tr: Trace):
             on_start("E", b, ei, tick)
             on_start("L", b, ei, tick)      # the Block line starts when it gets the lock (its run-log `started` follows in the same tick)
             cx.counter[b] = cx.counter.get(b, 0) + 1
+            inv_start[(b, cx.counter[b])] = (ei, tick)
             if b not in cx.active:
                 cx.active.append(b)
             block_end_idx.pop(b, None)
@@ -936,6 +973,7 @@ def analyse(tr: Trace):
                 info["blocks_from_interrupt"] += 1
         elif k == "block_end":
             last_block_end_tick[0] = tick
+            block_end_eis.append(ei)
             for w_ in inv_open.values():
                 w_["cut"] = True       # any block end during an invocation may cut it short (lexically or dynamically enclosing)
             b = prog.block.get(e[2])
@@ -990,6 +1028,71 @@ def analyse(tr: Trace):
             lab5 = nia_any(cx2_active + ([prog.block[got]] if got in prog.block else []))
             add(v5, "tag:%s%s" % (cls, lab5), "tick %d end: Block tag is %r, innermost active block is %r (active chain %s)"
                 % (t["no"], t["block"], want, [prog.byid[b].payload for b in cx2_active]))
+
+    # S7 -- bounded response inside repeated bodies, the bound taken from the run itself: a line of an Alarm / Macro body
+    # (also inside a Block of such a body) that an EARLIER invocation started `lat` ticks after its reference point (the
+    # instruction before it completed -- commands, Watch, Alarm: started -- or, for the first line of a scope, the scope
+    # started) has, in the LATEST invocation, the same reference point behind it but has not started lat + margin ticks
+    # later although its scope is still open and no block has ended since.  Not judged: lines with a threshold (clock
+    # dependent), Block lines (they may wait for the block lock), lines in overlapping macro calls, nested interrupts of a
+    # repeated body (registered finding), lines in ended blocks.
+    STALL_MARGIN = 3
+    if stop["v2"] is None and tr.ticks:
+        last_tick = tr.ticks[-1]["no"]
+
+        def ref_point(lid, pc):
+            """(event index from which a block end exempts the line, tick of the reference point) or None"""
+            p_ = prog.pred(lid)
+            if p_ is None:
+                par_ = prog.byid[lid].parent
+                return inv_start.get((par_, pc)) if par_ is not None else None
+            hit = seen["L"].get((p_, pc))
+            if hit is None:
+                return None
+            if prog.kind(p_) in COMPLETING or prog.kind(p_) == "wait":
+                c_ = completed.get((p_, pc))
+                return None if c_ is None else (hit[0], tr.events[c_][0])
+            return hit
+
+        lat: dict = {}
+        for (lid, pc), (ei_, tick_) in seen["L"].items():
+            rp = ref_point(lid, pc)
+            if rp is not None and tick_ >= rp[1]:
+                lat.setdefault(lid, {})[pc] = tick_ - rp[1]
+        for l in prog.lines:
+            lid = l.id
+            rep = prog.repeater(lid)
+            if rep is None or l.kind in WS or l.kind == "block" or (l.node or {}).get("t") is not None:
+                continue
+            if prog.nested_interrupt_in_alarm(lid) or cx.weak(lid) or ended_block_of(lid) is not None:
+                continue
+            if l.kind == "callmacro" and prog.macro.get(l.payload) in cx.concurrent:
+                continue
+            par = l.parent
+            pc = cx.counter.get(par, 0)
+            if pc < 2 or (lid, pc) in seen["L"]:
+                continue
+            earlier = [v for k_, v in lat.get(lid, {}).items() if k_ < pc]
+            rp = ref_point(lid, pc)
+            if not earlier or rp is None:
+                continue
+            pk_ = prog.kind(par)
+            if pk_ == "block":
+                open_ = par in cx.active
+            elif pk_ == "macro":
+                open_ = (par, pc) not in inv_closed and cx.started_calls.get(par, 0) > 0 and par not in cx.concurrent
+            else:
+                open_ = (par, pc) not in inv_closed
+            if not open_ or any(x >= rp[0] for x in block_end_eis):
+                continue
+            bound = max(earlier) + STALL_MARGIN
+            if last_tick > rp[1] + bound:
+                cur[0] = len(tr.events)
+                add(v2, "invocation-stalled:%s" % rep,
+                    "[L] %s has not started %d ticks after its reference point (tick %d, invocation #%d of %s; run judged up to tick %d) "
+                    "although earlier invocations started it within %d tick(s); its scope is still open and no block ended since"
+                    % (txt(lid), last_tick - rp[1], rp[1], pc, txt(par), last_tick, max(earlier)))
+                break
 
     # trailing blank/comment lines (end of the method): never reported started / executed
     tw = set(prog.trailing_ws)
